@@ -59,6 +59,11 @@ const OUT_CAP: usize = 4 << 20;
 
 /// stdout, and Ok(Ok(value text)) | Ok(Err(error text)) | Err(panic message)
 fn run_real(src: &str) -> (String, Result<Result<String, String>, String>) {
+    run_real_at(src, None)
+}
+
+/// `script_path`: where the script pretends to live (its imports are resolved next to it)
+fn run_real_at(src: &str, script_path: Option<&std::path::Path>) -> (String, Result<Result<String, String>, String>) {
     let so = Capture::new();
     let se = Capture::new();
     let mut koto = Koto::with_settings(
@@ -67,9 +72,16 @@ fn run_real(src: &str) -> (String, Result<Result<String, String>, String>) {
             .with_stderr(se.clone())
             .with_execution_limit(std::time::Duration::from_secs(3)),
     );
-    let r = kvh::catch(|| match koto.compile_and_run(src) {
-        Ok(v) => Ok(value_text(&v)),
-        Err(e) => Err(e.to_string()),
+    let r = kvh::catch(|| {
+        let args = koto::CompileArgs {
+            script: src,
+            script_path: script_path.map(|p| p.to_string_lossy().to_string().into()),
+            compiler_settings: Default::default(),
+        };
+        match koto.compile_and_run(args) {
+            Ok(v) => Ok(value_text(&v)),
+            Err(e) => Err(e.to_string()),
+        }
     });
     (so.text(), r)
 }
@@ -314,6 +326,16 @@ fn tag_in(marker: &str, lo: u32, hi: u32) -> bool {
 fn main() {
     kvh::quiet_panics();
     let args = Args::parse();
+    if let Some(i) = args.extra.iter().position(|x| x == "--probe-at") {
+        let dir = std::path::PathBuf::from(&args.extra[i + 1]);
+        let src = std::fs::read_to_string(&args.extra[i + 2]).unwrap();
+        for part in src.split("\n---\n") {
+            println!("=== script:\n{}", part);
+            let (out, r) = run_real_at(part, Some(&dir.join("_host.koto")));
+            println!("--- stdout:\n{}--- result: {:?}", out, r);
+        }
+        return;
+    }
     if let Some(i) = args.extra.iter().position(|x| x == "--probe") {
         let src = std::fs::read_to_string(&args.extra[i + 1]).unwrap();
         for part in src.split("\n---\n") {
@@ -443,6 +465,9 @@ fn main() {
     // ---- 1b. (E) error propagation through every iterator adaptor / consumer position
     run_sweep(&mut cx, args.seed, args.thorough());
 
+    // ---- 1c. (I) state after a failed import
+    run_import_family(&mut cx);
+
     // ---- 2. (K2) mechanism model vs the real runtime
     let n_mech = if args.thorough() { 40000 } else { 2500 };
     let mut rng2 = Rng::new(args.seed ^ 0x5eed_c04);
@@ -565,7 +590,34 @@ impl<'a> MG<'a> {
         }
         E::Seq(v)
     }
+    /// outer try { loop { inner try { throw } catch { break/continue } } ; throw } catch …:
+    /// the later throw must reach the outer handler (no TryEnd may be emitted for the inner try,
+    /// whose catch point was already cleared when its catch block was entered)
+    fn handler_exit_snippet(&mut self) -> E {
+        let exit = match self.rng.below(3) {
+            0 => E::Brk,
+            1 => E::Cont,
+            _ => E::BrkV(Box::new(E::Lit(Lit::Int(2)))),
+        };
+        let in_fin = self.rng.chance(1, 3);
+        let (cb, fin) = if in_fin {
+            (E::Seq(vec![E::Emit(1000 + self.t(), None)]), Some(Box::new(E::Seq(vec![E::Emit(2000 + self.t(), None), exit]))))
+        } else {
+            (E::Seq(vec![E::Emit(1000 + self.t(), None), exit]), None)
+        };
+        let inner = E::Try(Box::new(E::Seq(vec![E::Emit(self.t(), None), E::Throw(Box::new(self.lit()))])), vec![(None, 1, cb)], fin);
+        let lp = E::ForL(0, Box::new(E::MkList(vec![E::Lit(Lit::Int(0)), E::Lit(Lit::Int(1))])), Box::new(E::Seq(vec![inner, E::Emit(self.t(), None)])));
+        E::Try(
+            Box::new(E::Seq(vec![E::Emit(self.t(), None), lp, E::Emit(self.t(), None), E::Throw(Box::new(self.lit())), E::Emit(self.t(), None)])),
+            vec![(None, 1, E::Seq(vec![E::Emit(1000 + self.t(), None)]))],
+            None,
+        )
+    }
+
     fn stmt(&mut self, depth: u32, avail: u32, in_fn: bool, brk_ok: bool) -> E {
+        if depth > 0 && self.rng.chance(1, 12) {
+            return self.handler_exit_snippet();
+        }
         let w_nest = if depth > 0 { 4 } else { 0 };
         let w_call = if avail > 0 { 3 } else { 0 };
         let w_ret = if in_fn { 1 } else { 0 };
@@ -1387,6 +1439,169 @@ fn run_sweep(cx: &mut Ctx, seed: u64, thorough: bool) {
                    "note": "no case of the sweep reached its fault point through these functions: the sweep no longer covers them (templates need adjusting)"}),
         );
     }
+}
+
+// ------------------------------------------------------------------------------------ (I) failing imports
+//
+// Clause: "after a caught error execution continues with every variable and container as it was at
+// the throw point" — for a failed `import` this includes the module's ACTIVE EXPORTS MAP (the VM
+// swaps it while a module loads): after the catch, earlier exports are still readable through
+// non-local lookups, later `export`s land in the importing module, nothing of the failed module
+// leaks, a later good import works, and importing the bad module again fails again.
+// Model-free (like the iterator sweep): the expected marker trace follows from the script template.
+
+struct BadMod {
+    name: &'static str,
+    body: &'static str,
+    /// `{type e} {e}` as the importing script must catch it
+    caught: &'static str,
+}
+
+const BAD_MODS: &[BadMod] = &[
+    BadMod { name: "bad_str", body: "export partial_bad_str = 'p'\nthrow 'modfail'\n", caught: "String modfail" },
+    BadMod { name: "bad_num", body: "export partial_bad_num = 'p'\nx = 1\nthrow 42\n", caught: "Number 42" },
+    BadMod {
+        name: "bad_obj",
+        body: "export partial_bad_obj = 'p'\nthrow {@type: 'K0', @display: || 'k0'}\n",
+        caught: "K0 k0",
+    },
+    BadMod {
+        name: "bad_rt",
+        body: "export partial_bad_rt = 'p'\nexport broken = [1, 2, 3][10]\nexport never = 1\n",
+        caught: "String index out of bounds - index: 10, size: 3",
+    },
+    BadMod {
+        name: "bad_fn",
+        body: "export partial_bad_fn = 'p'\nf = |n|\n  if n == 0\n    return 1 + 'a'\n  f(n - 1)\nexport v = f 3\n",
+        caught: "String unable to perform operation '+' with 'Number' and 'String'",
+    },
+    BadMod { name: "bad_main", body: "export partial_bad_main = 'p'\n@main = || throw 'mainfail'\n", caught: "String mainfail" },
+    BadMod {
+        name: "bad_test",
+        body: "export partial_bad_test = 'p'\n@test t = || assert false\n",
+        caught: "String assertion failed (while running test 't')",
+    },
+    BadMod {
+        name: "bad_outer",
+        body: "export partial_bad_outer = 'p'\nexport o = 1\nimport bad_str\nexport after = 2\n",
+        caught: "String modfail",
+    },
+];
+
+#[derive(Clone, Copy, Debug)]
+enum ImpPlace {
+    Top,      // try at the top level of the importing script
+    Function, // the import statement is in a function called from the try block
+    Nested,   // two nested try blocks, the inner one's catch blocks (typed, map pattern) do not accept
+    Loop,     // twice in a loop (the second attempt must fail in the same way)
+}
+
+fn import_case_source(mods: &[usize], place: ImpPlace, from_form: bool) -> (String, Vec<String>) {
+    let mut s = String::from("export first = 1\nget_first = || first\nget_second = || second\nget_third = || third\n");
+    let mut exp = vec![];
+    for m in mods {
+        s.push_str(&format!("get_leak_{0} = || partial_{0}\n", BAD_MODS[*m].name));
+    }
+    s.push_str("print '#S'\n");
+    exp.push("#S".to_string());
+    for (i, m) in mods.iter().enumerate() {
+        let b = &BAD_MODS[*m];
+        let stmt = if from_form { format!("from {} import partial_{} as q{}_", b.name, b.name, i) } else { format!("import {} as m{}_", b.name, i) };
+        let caught = format!("#C{} {}", i, b.caught);
+        match place {
+            ImpPlace::Top => {
+                s.push_str(&format!("try\n  {}\n  print '#DONE'\ncatch e{}_\n  print '#C{} {{type e{}_}} {{e{}_}}'\n", stmt, i, i, i, i));
+                exp.push(caught);
+            }
+            ImpPlace::Function => {
+                s.push_str(&format!("imp{}_ = ||\n  {}\n  print '#DONE'\n  0\ntry\n  z{}_ = imp{}_()\ncatch e{}_\n  print '#C{} {{type e{}_}} {{e{}_}}'\n", i, stmt, i, i, i, i, i, i));
+                exp.push(caught);
+            }
+            ImpPlace::Nested => {
+                s.push_str(&format!("try\n  try\n    {}\n    print '#DONE'\n  catch w{}_: List\n    print '#WRONG'\n  catch {{nokey_ as w{}b_}}\n    print '#WRONG2'\ncatch e{}_\n  print '#C{} {{type e{}_}} {{e{}_}}'\n", stmt, i, i, i, i, i, i));
+                exp.push(caught);
+            }
+            ImpPlace::Loop => {
+                s.push_str(&format!("for n{}_ in (1, 2)\n  try\n    {}\n    print '#DONE'\n  catch e{}_\n    print '#C{} {{type e{}_}} {{e{}_}}'\n", i, stmt, i, i, i, i));
+                exp.push(caught.clone());
+                exp.push(caught);
+            }
+        }
+        // an export between two failing imports
+        s.push_str(&format!("export mid{} = {}\nprint '#M{} {{(|| mid{})()}}'\n", i, 10 + i, i, i));
+        exp.push(format!("#M{} {}", i, 10 + i));
+    }
+    s.push_str("export second = 2\nprint '#1 {get_first()}'\nprint '#2 {get_second()}'\n");
+    exp.push("#1 1".into());
+    exp.push("#2 2".into());
+    for m in mods {
+        let n = BAD_MODS[*m].name;
+        s.push_str(&format!("try\n  print '#L {{get_leak_{0}()}}'\ncatch l_\n  print '#LE {{l_}}'\n", n));
+        exp.push(format!("#LE 'partial_{}' not found", n));
+    }
+    s.push_str("import ok_mod\nprint '#3 {ok_mod.a}'\nexport third = 3\nprint '#4 {get_third()}'\n");
+    exp.push("#3 1".into());
+    exp.push("#4 3".into());
+    (s, exp)
+}
+
+fn run_import_family(cx: &mut Ctx) {
+    let base = std::env::var("VERIF_SCRATCH").map(std::path::PathBuf::from).unwrap_or_else(|_| std::env::temp_dir());
+    let dir = base.join(format!("c04_mods_{}", std::process::id()));
+    let _ = std::fs::create_dir_all(&dir);
+    let mut ok = std::fs::write(dir.join("_host.koto"), "").is_ok();
+    ok &= std::fs::write(dir.join("ok_mod.koto"), "export a = 1\n").is_ok();
+    for b in BAD_MODS {
+        ok &= std::fs::write(dir.join(format!("{}.koto", b.name)), b.body).is_ok();
+    }
+    if !ok {
+        cx.rep.note(format!("import family skipped: cannot write module files under {}", dir.display()));
+        return;
+    }
+    let host = dir.join("_host.koto");
+    let mut n = 0u64;
+    let mut fails = 0u64;
+    let places = [ImpPlace::Top, ImpPlace::Function, ImpPlace::Nested, ImpPlace::Loop];
+    let mut cases: Vec<(Vec<usize>, ImpPlace, bool)> = vec![];
+    for m in 0..BAD_MODS.len() {
+        for p in places {
+            for f in [false, true] {
+                cases.push((vec![m], p, f));
+            }
+        }
+    }
+    // two and three failing imports in a row, different kinds
+    for m in 0..BAD_MODS.len() {
+        let m2 = (m + 3) % BAD_MODS.len();
+        let m3 = (m + 5) % BAD_MODS.len();
+        cases.push((vec![m, m2], places[m % 4], m % 2 == 0));
+        cases.push((vec![m, m2, m3], places[(m + 1) % 4], m % 2 == 1));
+    }
+    for (mods, place, from_form) in cases {
+        n += 1;
+        let (src, exp) = import_case_source(&mods, place, from_form);
+        let (so, r) = run_real_at(&src, Some(&host));
+        let key = format!("import mods={:?} place={:?} from={}", mods.iter().map(|m| BAD_MODS[*m].name).collect::<Vec<_>>(), place, from_form);
+        cx.rep.case(&key, true);
+        cx.rep.bump("import_family=case");
+        let got: Vec<&str> = so.split('\n').filter(|l| !l.is_empty()).collect();
+        let okr = matches!(r, Ok(Ok(_)));
+        if got != exp.iter().map(|x| x.as_str()).collect::<Vec<_>>() || !okr {
+            fails += 1;
+            cx.fails += 1;
+            if fails <= 4 {
+                cx.rep.violation(
+                    "D",
+                    "C04:state-after-failed-import",
+                    json!({"case": key, "source": src, "modules_dir": dir.display().to_string(),
+                           "impl": format!("{} || {:?}", got.join(" | "), r), "expected": exp.join(" | "),
+                           "note": "after a failed import was caught, the importing module does not continue with its own exports map / variables as they were (or the caught value is not the module's error)"}),
+                );
+            }
+        }
+    }
+    cx.rep.extra.insert("import_family".into(), json!({"cases": n, "failures": fails, "bad_module_kinds": BAD_MODS.iter().map(|b| b.name).collect::<Vec<_>>()}));
+    let _ = std::fs::remove_dir_all(&dir);
 }
 
 // ------------------------------------------------------------------------------------ AST
@@ -3450,6 +3665,15 @@ impl<'a> G<'a> {
             let f = self.faulty_stmt(fr, cb);
             body.insert(pos, f);
         }
+        if cb.depth > 0 && self.rng.chance(1, 5) {
+            // a loop inside this try block whose inner try leaves the loop from its CATCH or FINALLY
+            // block (break / continue / break with value), then a failing statement that is still
+            // inside this try block: it must reach this try's handler
+            let snippet = self.loop_exit_from_handler(fr, cb);
+            body.push(snippet);
+            let f = self.faulty_stmt(fr, cb);
+            body.push(f);
+        }
         if value {
             let t = self.int_expr(fr, cb, 1);
             body.push(t);
@@ -3484,6 +3708,63 @@ impl<'a> G<'a> {
             None
         };
         E::Try(Box::new(E::Seq(body)), cs, fin)
+    }
+
+    fn loop_exit_from_handler(&mut self, fr: &Frame, cx: Cx) -> E {
+        let n = 1 + self.rng.below(3);
+        let items: Vec<E> = (0..n).map(|_| E::Lit(Lit::Int(self.rng.range(0, 4)))).collect();
+        let exit = |g: &mut Self| -> E {
+            match g.rng.below(4) {
+                0 => E::Brk,
+                1 => E::Cont,
+                2 => E::BrkV(Box::new(g.int_atom(fr))),
+                _ => {
+                    let c = E::Bin(Op::Lt, Box::new(g.int_atom(fr)), Box::new(g.int_atom(fr)));
+                    E::If(Box::new(c), Box::new(E::Seq(vec![E::Brk])), Box::new(E::Seq(vec![E::Cont])))
+                }
+            }
+        };
+        let t1 = self.next_tag();
+        let t2 = self.next_tag();
+        let ct = {
+            self.ctag += 1;
+            1000 + self.ctag
+        };
+        let inner_fault = self.fault(fr, Cx { args_fault_ok: false, ..cx });
+        // 0: exit from the catch block; 1: exit from the finally block (catch block plain);
+        // 2: the inner try is itself nested in another inner try whose catch block exits
+        let inner = match self.rng.below(3) {
+            0 => E::Try(
+                Box::new(E::Seq(vec![E::Emit(t1, None), inner_fault])),
+                vec![(None, fr.c1, E::Seq(vec![E::Emit(ct, Some(Box::new(E::Var(fr.c1)))), exit(self)]))],
+                None,
+            ),
+            1 => {
+                let ft = {
+                    self.ftag += 1;
+                    2000 + self.ftag
+                };
+                E::Try(
+                    Box::new(E::Seq(vec![E::Emit(t1, None), inner_fault])),
+                    vec![(None, fr.c1, E::Seq(vec![E::Emit(ct, Some(Box::new(E::Var(fr.c1))))]))],
+                    Some(Box::new(E::Seq(vec![E::Emit(ft, None), exit(self)]))),
+                )
+            }
+            _ => {
+                let t3 = self.next_tag();
+                let inner2 = E::Try(
+                    Box::new(E::Seq(vec![E::Emit(t3, None), self.fault(fr, Cx { args_fault_ok: false, ..cx })])),
+                    vec![(None, fr.c2, E::Seq(vec![E::Emit(ct, Some(Box::new(E::Var(fr.c2)))), E::Throw(Box::new(E::Var(fr.c2)))]))],
+                    None,
+                );
+                E::Try(
+                    Box::new(E::Seq(vec![E::Emit(t1, None), inner2])),
+                    vec![(None, fr.c1, E::Seq(vec![E::Emit(ct, Some(Box::new(E::Var(fr.c1)))), exit(self)]))],
+                    None,
+                )
+            }
+        };
+        E::ForL(fr.lv, Box::new(E::MkList(items)), Box::new(E::Seq(vec![inner, E::Emit(t2, Some(Box::new(E::Var(fr.lv))))])))
     }
 
     /// a statement that (very likely) raises, directly or in a callee / callback / generator / operator
